@@ -469,7 +469,10 @@ def build_form(ctx: _Ctx, F: dict, scale: int):
             g = g * res(v)
         md = {} if RULE_DEGREE[I["rule"]] is None else {"degree": RULE_DEGREE[I["rule"]]}
         sub = I["sub"]
-        sd = None if not sub else (sub[0] if len(sub) == 1 else tuple(sub))
+        # UFL accepts any numbers.Integral as a subdomain id: users pass mesh-tag values, i.e. NumPy integers
+        import numpy as _np
+        ity = (int, _np.int32, _np.int64)[(k + n + len(sub)) % 3]
+        sd = None if not sub else (ity(sub[0]) if len(sub) == 1 else tuple(ity(x) for x in sub))
         m = ctx.measure[I["type"]]
         term = g * (m(sd, **md) if sd is not None else (m(**md) if md else m))
         form = term if form is None else form + term
